@@ -288,6 +288,12 @@ func c13Run(chain *c13kit.Chain, c c13Case) (res c13Result) {
 		res.Outcome = "violation"
 		return
 	}
+	if st.LastBlockHeight < c13kit.Tip && c.Strategy.NumLies() == 0 {
+		res.Key = "blockchain/v1:honest-peers-only-and-tip-not-reached"
+		res.What = fmt.Sprintf("every answer was the canonical block, yet block sync ended at height %d of %d", st.LastBlockHeight, c13kit.Tip)
+		res.Outcome = "violation"
+		return
+	}
 	if st.LastBlockHeight < c13kit.Tip {
 		res.Outcome = fmt.Sprintf("early-switch@%d/handover-ok", st.LastBlockHeight)
 		return
